@@ -138,7 +138,8 @@ def _unreachable_ok_lines(self, eng, fn):
     for st in ast.walk(fn):
         if isinstance(st, ast.stmt):
             line = text[st.lineno - 1]
-            if any(snip in line for snip in getattr(self, "unreachable_ok", ())):
+            snips = tuple(getattr(self, "unreachable_ok", ())) + tuple((getattr(self, "unreachable_ok_by_role", None) or {}).get(getattr(eng, "role", None), ()))
+            if any(snip in line for snip in snips):
                 for sub in ast.walk(st):
                     if isinstance(sub, ast.stmt):
                         out.append(sub.lineno)
@@ -362,7 +363,7 @@ def apply_contract(eng, con, fn, args, kwargs, node, fr, caller_label=None, extr
                 assume_class_invariants(eng, env["self"])
             for nm, text in con.ensures_exc:
                 eng.assume(eng.truth(eng.eval_spec(text, dict(env, raised=VBool(True)), con.qual.split(".")[0], old=old)))
-            raise RaiseSig(VExc(exc, [eng.fresh_str("excmsg", False)]))
+            raise RaiseSig(VExc(exc, [eng.fresh_int("errno") if exc == "OSError" else eng.fresh_str("excmsg", False)]))
     declared_conditional = {e for e, _ in con.raises_when}
     for exc in con.raises:
         if exc in declared_conditional:
